@@ -133,7 +133,10 @@ func (tw *TimerWheel[K, V]) expire(index int, prevTicks int64, delta int64, remo
 		entry := list.Front()
 		for entry != nil {
 			next := entry.Next(WHEEL_LIST)
-			if entry.expire.Load() <= tw.nanos {
+			if expire := entry.expire.Load(); expire == 0 {
+				// TTL dropped meanwhile, nothing to expire
+				tw.deschedule(entry)
+			} else if expire <= tw.nanos {
 				tw.deschedule(entry)
 				remove(entry, EXPIRED)
 			} else {
